@@ -190,6 +190,7 @@ class Executor:
         self.on_call = None  # hook(state, callee, args) -> None | value
         self.coroutine_bodies = {}
         self.async_inline = []
+        self.stop_calls = []  # exploration of a path ends (outcome 'stopped') when one of these callees is reached
         self.pure = []  # uninterpreted callees assumed not to modify what their &mut arguments point to
         self.type_modules = {}
         self._by_method = {}
@@ -1032,6 +1033,9 @@ class Executor:
         dest_ty = None
         if dest is not None and dest[0] == "local":
             dest_ty = fr.body.locals.get(dest[1])
+        for pat in self.stop_calls:
+            if re.search(pat, callee):
+                raise PathEnd("stopped", callee)
         if self.PANIC_RE.search(callee):
             st.events.append(("call", callee, args, None))
             raise PathEnd("panic", "call to " + callee[:100] + " @ " + fr.body.name.split("::")[-1] + ":" + fr.bb)
@@ -1187,6 +1191,10 @@ class Executor:
             c3 = [b for b in c2 if b.args and self.type_base(re.sub(r"^&(?:'\w+ )?(?:mut )?", "", b.args[0][1])) == ty]
             if len(c3) == 1:
                 return c3[0]
+            # constructors / associated functions: the impl whose return type is the type itself
+            c4 = [b for b in c2 if self.type_base(b.ret or "") in (ty, "Self")]
+            if len(c4) == 1:
+                return c4[0]
             return None
         # free function in a module: `module::function`
         c2 = [b for b in cands if b.name == ty + "::" + meth or b.name.endswith("::" + ty + "::" + meth)]
